@@ -307,10 +307,41 @@ pub fn fault_histories(ctx: &mut Ctx, count: u64, opts: &RunOpts) {
     }
 }
 
+/// A custom scheme whose signatures alone exceed 300 bytes: every build and update must fail with an error value
+/// (never panic, never hand out a record), in every build profile.
+pub fn long_signature_histories(ctx: &mut Ctx, opts: &RunOpts) {
+    let own = crate::keys::LONG_TOY_LABEL | 1;
+    let other = crate::keys::LONG_TOY_LABEL | 2;
+    let own_pub = own_ref(Scheme::Toy, own).pub_bytes();
+    let other_pub = own_ref(Scheme::Toy, other).pub_bytes();
+    let mut n = 0u64;
+    // builder with the long-signature key; a record of a NORMAL toy key updated with the long-signature key
+    for entries in [vec![], vec![BEntry::Udp4(1)], vec![BEntry::Add(b"pad".to_vec(), Val::B(vec![1; 200]))]] {
+        n += 1;
+        if ctx.mine(n) {
+            let h = mk_history(Scheme::Toy, own, other, &Init::Build(entries), vec![]);
+            run_hist_kt(ctx, KT::Toy, false, &h, opts);
+            ctx.count("long-signature-cases");
+        }
+    }
+    let alpha = sub_alphabet(Scheme::Toy, 1, &own_pub, &other_pub);
+    for op in alpha {
+        n += 1;
+        if !ctx.mine(n) {
+            continue;
+        }
+        // own = a normal toy key, other = the long-signature key: the step signed by Other must fail cleanly
+        let h = mk_history(Scheme::Toy, OWN, other, &Init::Build(vec![BEntry::Udp4(1), BEntry::Add(b"x".to_vec(), Val::U8(1))]), vec![Step { op, signer: Signer::Other }, Step { op: Op::SetUdp4(3), signer: Signer::Own }]);
+        run_hist_kt(ctx, KT::Toy, false, &h, opts);
+        ctx.count("long-signature-cases");
+    }
+}
+
 pub fn c05(ctx: &mut Ctx) {
     let opts = RunOpts::default();
     let q = ctx.quick();
     exhaustive_len1(ctx, false, &opts, &all);
+    long_signature_histories(ctx, &opts);
     byte_value_histories(ctx, &opts);
     fault_histories(ctx, if q { 400 } else { 20_000 }, &opts);
     builder_plans(ctx, &opts);
@@ -736,6 +767,7 @@ pub fn c03_hist_part(ctx: &mut Ctx) {
     let q = ctx.quick();
     if !cfg!(miri) {
         byte_value_histories(ctx, &opts);
+        long_signature_histories(ctx, &opts);
     }
     if cfg!(miri) {
         // seeded short Toy histories with the complete accessor sweep, until the deadline
